@@ -219,6 +219,13 @@ def vjob(tu, con):
 
 
 def build_c(run):
+    # the tables of both stacks are extracted from the AST and every obligation group depends on that extraction: one section
+    # (when the tables / lookup sites cannot be found in a refactored file the bounded native oracle oracles/c_C11.py stands in)
+    K.sect(run, "mframe tables and lookup sites (firmware + trxcon)", build_all, run)
+    K.finish(run)
+
+
+def build_all(run):
     ftu, ttu, stu = fw_tu(), trx_tu(), sites_tu()
     fw, trx = FW(ftu), TRX(ttu)
     TRX_for_sites(stu, trx)
@@ -301,7 +308,6 @@ def build_c(run):
                      "implement it must be valid (period_positive, period_equals_table_length).")
     run.notes.append("scope: compared firmware tasks = the statement's channel list (spec/mframe_correspondence.py ROWS); not compared: %s"
                      % "; ".join("%s (%s)" % kv for kv in sorted(MC.NOT_COMPARED.items())))
-    K.finish(run)
 
 
 build = build_c
@@ -936,7 +942,7 @@ def replay_site(w):
             return {"confirmed": False, "error": res}
         hit = [l for l in lines if l.get("idx") == i]
         if not hit:
-            return {"confirmed": False, "observed": "layouts[%d] is not returned by any lookup" % i, "expected": "n/a"}
+            return {"confirmed": False, "error": "counter-model not executable: layouts[%d] is not returned by any lookup" % i, "expected": "n/a"}
         tn = w.get("tn") if isinstance(w.get("tn"), int) and any(l["tn"] == w.get("tn") for l in hit) else hit[0]["tn"]
         cfg = hit[0]["config"]
         rows, _res = trx_run(ht, "rows", i) if (hit and lines is not None) else (None, None)
